@@ -1,10 +1,105 @@
 import Pendulum.Drv.Util
-/-! request handler for property C10 (stub until the property is built) -/
+import Pendulum.Drv.C09
+import Pendulum.Model.Dur
+import Pendulum.Drv.DurF
+/-! request handler for property C10: `durop <op> <L> <R>`, `durcmp <L> <R>` (Duration arithmetic) -/
 namespace Pendulum.Drv.C10
-open Pendulum Pendulum.Drv
+open Pendulum Pendulum.Drv Pendulum.Dur
+
+/-- an operand on the wire -/
+inductive Opnd where
+  | dur (d : D)          -- `D y mo w d h mi s ms us`
+  | itv (n : Int)        -- `V us`  : an Interval of that length (delegates to `as_duration()`)
+  | td (n : Int)         -- `T us`  : a plain timedelta
+  | int (k : Int)        -- `I k`
+  | flt (p q : Int)      -- `F p q` : a float given by `as_integer_ratio()`
+  | none                 -- `N`
+
+def parseOpnd : List String → Option (Opnd × List String)
+  | "D" :: rest => do
+    let a ← C09.argsOf (← ints (rest.take 9))
+    some (.dur (mk a), rest.drop 9)
+  | "V" :: n :: rest => do some (.itv (← n.toInt?), rest)
+  | "T" :: n :: rest => do some (.td (← n.toInt?), rest)
+  | "I" :: n :: rest => do some (.int (← n.toInt?), rest)
+  | "F" :: p :: q :: rest => do some (.flt (← p.toInt?) (← q.toInt?), rest)
+  | "N" :: rest => some (.none, rest)
+  | _ => Option.none
+
+def okD (d : D) : String := okInts (1 :: C09.fieldsD d)
+def okTd (n : Int) : String := okInts [0, Td.days n, Td.seconds n, Td.micros n]
+def okInt (n : Int) : String := okInts [2, n]
+def okFloat (r : Int × Int) : String := okInts [3, r.1, r.2]
+def okQD (q : Int) (d : D) : String := okInts (4 :: q :: C09.fieldsD d)
+def okQTd (q n : Int) : String := okInts [5, q, Td.days n, Td.seconds n, Td.micros n]
+
+def zdiv : String := "err ZeroDivisionError"
+
+/-- `Interval.as_duration()` = `Duration(seconds=self.total_seconds())` -/
+def asDuration (n : Int) : D := ofUs n
+
+def other? : Opnd → Option Other
+  | .dur d => some (.dur d)
+  | .itv n => some (.dur (asDuration n))    -- an Interval is a Duration: `_to_microseconds` exists (shadow slots)
+  | .td n => some (.td n)
+  | _ => Option.none
+
+/-- operator with a Duration on the left -/
+def leftOp (op : String) (d : D) (r : Opnd) : Option String :=
+  match op, r with
+  | "neg", .none => some (okD (neg d))
+  | "abs", .none => some (okTd (absNative d))
+  | "mul", .int k => some (okD (mulInt d k))
+  | "mul", .flt p q => some (okD (mulFloat d p q))
+  | "truediv", .int k => some (if k == 0 then zdiv else okD (truedivInt d k))
+  | "truediv", .flt p q => some (if p == 0 then zdiv else okD (truedivFloat d p q))
+  | "floordiv", .int k => some (if k == 0 then zdiv else okD (floordivInt d k))
+  | _, _ =>
+    match other? r with
+    | Option.none => Option.none
+    | some o =>
+      match op with
+      | "add" => some (okD (add d o.native))
+      | "sub" => some (okD (sub d o.native))
+      | "floordiv" => some (if o.us == 0 then zdiv else okInt (floordivDur d o))
+      | "truediv" => some (if o.us == 0 then zdiv else okFloat (truedivDur d o))
+      | "mod" => some (if o.us == 0 then zdiv else okD (modDur d o))
+      | "divmod" => some (if o.us == 0 then zdiv else let (q, m) := divmodDur d o; okQD q m)
+      | _ => Option.none
+
+/-- operator with a plain timedelta / number on the left and a Duration on the right (reflected or base-class) -/
+def rightOp (op : String) (l : Opnd) (d : D) : Option String :=
+  match op, l with
+  | "add", .td n => some (okD (add d n))
+  | "mul", .int k => some (okD (mulInt d k))
+  | "mul", .flt p q => some (okD (mulFloat d p q))
+  | "sub", .td n => some (okTd (Td.sub n d.native))
+  | "floordiv", .td n => some (if d.native == 0 then zdiv else okInt (Td.floordivTd n d.native))
+  | "truediv", .td n => some (if d.native == 0 then zdiv else okFloat (trueDiv n d.native))
+  | "mod", .td n => some (if d.native == 0 then zdiv else okTd (Td.modTd n d.native))
+  | "divmod", .td n => some (if d.native == 0 then zdiv else okQTd (Td.floordivTd n d.native) (Td.modTd n d.native))
+  | _, _ => Option.none
 
 def handle (_zs : Zones) (ws : List String) : Option String :=
   match ws with
-  | _ => none
+  | "durop" :: op :: rest => do
+    let (l, rest) ← parseOpnd rest
+    let (r, _) ← parseOpnd rest
+    match l, r with
+    | .dur d, r => leftOp op d r
+    | .itv n, r =>
+      -- Interval.__neg__/__abs__ build Intervals; only the delegating operators are modelled
+      if op == "neg" || op == "abs" then Option.none else leftOp op (asDuration n) r
+    | l, .dur d => rightOp op l d
+    | _, _ => Option.none
+  | "durcmp" :: rest => do
+    let (l, rest) ← parseOpnd rest
+    let (r, _) ← parseOpnd rest
+    let a ← (other? l).map Other.native
+    let b ← (other? r).map Other.native
+    some (okInts [b2i (a == b), b2i (a != b), b2i (decide (a < b)), b2i (decide (a ≤ b)), b2i (decide (a > b)),
+      b2i (decide (a ≥ b))])
+  | "duropf" :: _ => DurF.handle ws     -- float-faithful model, outside the float-exact range
+  | _ => Option.none
 
 end Pendulum.Drv.C10
